@@ -39,11 +39,21 @@ Definition round_robin {A} (l : list (list A)) : list A :=
   rr (S (fold_right (fun x n => (length x + n)%nat) 0%nat l)) l.
 
 Definition sp : bytes := [32].
+(* appending a class to a compound that already has it changes nothing *)
+Fixpoint take_compound (r : bytes) : bytes :=
+  match r with [] => [] | c :: r' => if c =? 32 then [] else c :: take_compound r' end.
+Definition last_compound (p : bytes) : bytes := rev (take_compound (rev p)).
+Fixpoint has_sub (t x : bytes) : bool :=
+  match x with
+  | [] => match t with [] => true | _ => false end
+  | _ :: r => is_prefix t x || has_sub t r
+  end.
+Definition append_suffix (p t : bytes) : bytes := if has_sub t (last_compound p) then p else p ++ t.
 (* None = outside the model (a parent reference with nothing to refer to) *)
 Definition resolve1 (backref : selset) (o : sel) : option (list bytes) :=
   match o with
   | SPlain t => Some [t]
-  | SSuffix t => match backref with Some bs => Some (map (fun p => p ++ t) bs) | None => None end
+  | SSuffix t => match backref with Some bs => Some (map (fun p => append_suffix p t) bs) | None => None end
   | SUnder t => match backref with Some bs => Some (map (fun p => t ++ sp ++ p) bs) | None => None end
   end.
 Definition nest1 (c : sctx) (o : sel) : option (list bytes) :=
